@@ -148,14 +148,39 @@ func parseType(s string) Type {
 	return Type{K: KStruct, Name: s}
 }
 
+func posConst(t *sx.T) bool {
+	if !t.IsAtom() || len(t.A) == 0 || len(t.A) > 18 {
+		return false
+	}
+	for _, c := range t.A {
+		if c < '0' || c > '9' {
+			return false
+		}
+	}
+	return t.A != "0"
+}
+
 func tdiv(a, b *sx.T) *sx.T {
+	if posConst(b) { // truncated division by a positive constant
+		if posConst(a) || (a.IsAtom() && a.A == "0") {
+			return sx.App("div", a, b)
+		}
+		return sx.Ite(sx.App(">=", a, sx.Int(0)), sx.App("div", a, b), sx.App("-", sx.App("div", sx.App("-", a), b)))
+	}
 	q := sx.App("div", sx.App("abs", a), sx.App("abs", b))
 	same := sx.App("=", sx.App(">=", a, sx.Int(0)), sx.App(">", b, sx.Int(0)))
 	return sx.Ite(same, q, sx.App("-", q))
 }
 
+// Tmod and Tdiv are exported for the executor (code and contracts must build identical terms).
+func Tmod(a, b *sx.T) *sx.T { return tmod(a, b) }
+func Tdiv(a, b *sx.T) *sx.T { return tdiv(a, b) }
+
 // tmod is Go's remainder: sign of the dividend.
 func tmod(a, b *sx.T) *sx.T {
+	if posConst(b) {
+		return sx.Ite(sx.App(">=", a, sx.Int(0)), sx.App("mod", a, b), sx.App("-", sx.App("mod", sx.App("-", a), b)))
+	}
 	m := sx.App("mod", sx.App("abs", a), sx.App("abs", b))
 	return sx.Ite(sx.App(">=", a, sx.Int(0)), m, sx.App("-", m))
 }
@@ -165,6 +190,13 @@ var Declare = func(key, decl string) {}
 
 // NeedList asks the engine to register the list sort with the given element type.
 var NeedList = func(elem Type) {}
+
+// DeclareSnapshots declares the global snapshot functions of storage.Find.
+func DeclareSnapshots() {
+	Declare("cnt", "(declare-fun cnt (Store String) Int)")
+	Declare("skey", "(declare-fun skey (Store String Int) String)")
+	Declare("sidx", "(declare-fun sidx (Store String String) Int)")
+}
 
 func committeeT() *sx.T {
 	NeedList(Type{K: KNB})
@@ -680,8 +712,14 @@ func (e *Env) call(x *ECall) TV {
 			return TV{T: sx.App(v.Ty.Name+"_len", v.T), Ty: I}
 		}
 		return TV{T: sx.App("str.len", toBytes(v)), Ty: I}
+	case x.Fn == "skey":
+		DeclareSnapshots()
+		return TV{T: sx.App("skey", e.Tr(x.Args[0]).T, toBytes(e.Tr(x.Args[1])), e.Tr(x.Args[2]).T), Ty: Type{K: KBytes}}
+	case x.Fn == "sidx":
+		DeclareSnapshots()
+		return TV{T: sx.App("sidx", e.Tr(x.Args[0]).T, toBytes(e.Tr(x.Args[1])), toBytes(e.Tr(x.Args[2]))), Ty: I}
 	case x.Fn == "cnt":
-		Declare("cnt", "(declare-fun cnt (Store String) Int)")
+		DeclareSnapshots()
 		return TV{T: sx.App("cnt", e.Tr(x.Args[0]).T, toBytes(e.Tr(x.Args[1]))), Ty: I}
 	case x.Fn == "lexlt":
 		return TV{T: sx.App("str.<", toBytes(e.Tr(x.Args[0])), toBytes(e.Tr(x.Args[1]))), Ty: B}
